@@ -326,22 +326,24 @@ def _check_sensitive_item_format(val):
 def _extract_enclosing_text(in_val, head="", tail=""):
     """Extract allowed enclosing text from input and return the enclosing and enclosed text."""
     val = in_val
-    # Strip at most one item per pass so the longer (escaped) items, which are
-    # listed first, are always tried before the plain quotes they contain
-    for head_text in _PASSWORD_ENCLOSING_HEAD_TEXT:
-        if val.startswith(head_text):
-            head += head_text
-            val = val[len(head_text) :]
-            break
-    for tail_text in _PASSWORD_ENCLOSING_TAIL_TEXT:
-        if val.endswith(tail_text):
-            tail = tail_text + tail
-            val = val[: -len(tail_text)]
-            break
-
-    if val != in_val:
-        return _extract_enclosing_text(val, head, tail)
-    return head, val, tail
+    # Loop (rather than recurse) so arbitrarily long runs of enclosing text are handled
+    while True:
+        stripped = val
+        # Strip at most one item per pass so the longer (escaped) items, which are
+        # listed first, are always tried before the plain quotes they contain
+        for head_text in _PASSWORD_ENCLOSING_HEAD_TEXT:
+            if stripped.startswith(head_text):
+                head += head_text
+                stripped = stripped[len(head_text) :]
+                break
+        for tail_text in _PASSWORD_ENCLOSING_TAIL_TEXT:
+            if stripped.endswith(tail_text):
+                tail = tail_text + tail
+                stripped = stripped[: -len(tail_text)]
+                break
+        if stripped == val:
+            return head, val, tail
+        val = stripped
 
 
 def generate_default_sensitive_item_regexes():
